@@ -54,7 +54,8 @@ type Scenario struct {
 	Later     func(s *Session) (string, error)
 	LaterWant string
 	// PrivErrOK: a failed implicit privilege change is reported as a privilege error. UserCmd is
-	// the user's own command that follows the implicit change.
+	// the user's own command (or first configuration line) that follows the implicit change; the
+	// dry run reports where its echo starts (CmdAt).
 	PrivErrOK bool
 	UserCmd   string
 	// IsOpen: the operation is Open (on failure the library closes the transport).
@@ -628,7 +629,7 @@ func All() []*Scenario {
 				}
 				return "mode=" + mode(s) + " " + r.Result, nil
 			}, Later: lfP, LaterWant: lwP})
-		l = append(l, &Scenario{Name: "n.sendconfigs", Driver: "network", Quick: true, New: newNetwork("privilege-exec"), Pre: openG,
+		l = append(l, &Scenario{Name: "n.sendconfigs", Driver: "network", Quick: true, PerOp: true, UserCmd: "set a!", New: newNetwork("privilege-exec"), Pre: openG,
 			Op: func(s *Session, o ...util.Option) (string, error) {
 				m, err := s.N.SendConfigs([]string{"set a!", "set b%"}, o...)
 				if err != nil {
@@ -652,7 +653,7 @@ func All() []*Scenario {
 				}
 				return "mode=" + mode(s) + " " + r.Result, nil
 			}, Later: lfP, LaterWant: lwP})
-		l = append(l, &Scenario{Name: "n.sendconfigs-after-command", Driver: "network", Quick: true, New: newNetwork("privilege-exec"), Pre: preCmd,
+		l = append(l, &Scenario{Name: "n.sendconfigs-after-command", Driver: "network", Quick: true, PerOp: true, UserCmd: "set a!", New: newNetwork("privilege-exec"), Pre: preCmd,
 			Op: func(s *Session, o ...util.Option) (string, error) {
 				m, err := s.N.SendConfigs([]string{"set a!", "set b%"}, o...)
 				if err != nil {
